@@ -114,7 +114,8 @@ def classify(form, problems):
     known_choice = {"list_name", "list name", "name", "value", "label", "caption", "image", "audio", "video", "big-image", "media", "sms_option"}
     choice_cols = [c for r in form.get("choices", []) for c in r
                    if c.split("::")[0].split(":")[0].strip().lower() not in known_choice or ("::" in "".join(cols) and ":" in c.replace("::", ""))]
-    custom = custom + choice_cols
+    # ... except headers with a space: validate_and_clean_choices drops those columns (with a warning), so they never excuse a failure
+    custom = custom + [c for c in choice_cols if " " not in c]
     badnames = [c for c in custom if not XML_NAME.match(c)]
     if badnames and "not well-formed" in text:
         return "F1-invalid-attribute-name"
@@ -138,6 +139,8 @@ def _check(args):
     rng = rng_for(seed, PID, "oracle", "hostile" if hostile else "plain", i)
     form = forms.gen_form(rng, forms.Profile(adversarial=0.6, max_rows=rng.choice([3, 6, 10])))
     form = forms.add_custom_columns(rng, form, hostile=hostile)
+    if i % 4 == 0:
+        forms.add_exotics(rng_for(seed, PID, "exotic", i), form, ["bad_choice_col", "search", "osm", "legacy_hint", "audit", "count_expr", "calc_msgs", "file_selects"], p=0.35)
     clean = {k: v for k, v in form.items() if not k.startswith("__")}
     d = forms.as_dict(clean)
     out = {"i": i, "hostile": hostile}
@@ -187,7 +190,8 @@ def oracle(seed, tier, searching=False):
         "distinct_nontrivial": len({r["key"] for r in oks if r.get("custom")}),
         "rule": "random XLSForms (adversarial text, custom bind::/instance::/body::/attribute:: columns, namespaces setting) "
                 "converted by the real convert() as dict / md / xlsx, compact and pretty; lxml (namespace-aware) parse + "
-                "skeleton audit; a hostile stream adds non-XML names, undeclared prefixes and control characters; "
+                "skeleton audit; every fourth case adds rarely used features (choice columns whose header holds a space, filled on some rows only; search() selects; osm; audit; "
+                "repeat_count expressions; selects from files); a hostile stream adds non-XML names, undeclared prefixes and control characters; "
                 "non-trivial = accepted form with a custom attribute column, distinct by workbook",
         "accepted": len(oks), "hostile_cases": nh,
         "failures": [{"input": {"form": f["form"], "container": f["container"], "pretty": f["pretty"], "case": f["i"]},
